@@ -262,6 +262,72 @@ theorem exec_refines_spec_partial (s : SchemaD) (doc : Doc) (vars : Vars) (w : W
       obtain ⟨_, hg⟩ := hret g seen' hc
       simp only [executeGroups_agree s w _ _ (fun rt p sels h => ih rt p sels h) parent path g hg]
 
+/-! ### the whole difference between model and specification is confined to `collect_fields` -/
+
+private theorem completeValue_agree' (s : SchemaD) (e eS : String → Path → List Sel → R (Data × List Err))
+    (nodes : List FNode) (he : ∀ rt p sels, e rt p sels = eS rt p sels) :
+    ∀ (t : Ty) (path : Path) (v : RVal), completeValue s e nodes t path v = completeValueS s eS nodes t path v :=
+  completeValue_agree s e eS nodes (fun rt p => he rt p _)
+
+private theorem executeGroups_agree' (s : SchemaD) (w : World) (e eS : String → Path → List Sel → R (Data × List Err))
+    (he : ∀ rt p sels, e rt p sels = eS rt p sels) (parent : String) (path : Path) :
+    ∀ g : Grouped, executeGroups s w e parent path g = executeGroupsS s w eS parent path g := by
+  intro g
+  induction g with
+  | nil => simp [executeGroups, executeGroupsS]
+  | cons kv rest ih =>
+    obtain ⟨key, nodes⟩ := kv
+    cases nodes with
+    | nil => simp [executeGroups, executeGroupsS]
+    | cons node more =>
+      have hcv := completeValue_agree' s e eS (node :: more) he
+      simp only [executeGroups, executeGroupsS, ih]
+      split
+      · rfl
+      · cases fieldOf s parent node.name with
+        | none => rfl
+        | some fd =>
+          simp only [resolveField, executeFieldS]
+          cases (node.args.find? (·.1 == parent)).map (·.2) with
+          | none => rfl
+          | some o =>
+            cases o with
+            | none => rfl
+            | some a =>
+              simp only []
+              cases w parent fd.name (path ++ [Seg.key key]) a with
+              | err m x => rfl
+              | boom => rfl
+              | val v => simp only [hcv]
+
+/-- **exec_refines_spec_of_collect**: for ALL documents — if the model's `collect_fields` and the specification's
+    `CollectFields` return the same grouped field set on the top-level calls the executor makes, then the model's
+    response equals the specification's. So field resolution, value completion, serialisation, abstract types, the
+    null/error handling and the sub-selection merge add NO difference: what remains open for documents with named
+    spreads is exclusively the collect-level statement (model groups = spec groups up to repeated nodes). -/
+theorem exec_refines_spec_of_collect (s : SchemaD) (doc : Doc) (vars : Vars) (w : World) (cf : Nat)
+    (hc : ∀ obj sels, (collectFields s doc vars cf obj sels []).map (·.1) = (collectFieldsS s doc vars cf obj sels []).map (·.1)) :
+    ∀ (fuel : Nat) (parent : String) (path : Path) (sels : List Sel),
+      executeFields s doc vars w cf fuel parent path sels = executeSelectionSetS s doc vars w cf fuel parent path sels := by
+  intro fuel
+  induction fuel with
+  | zero => intro parent path sels; simp [executeFields, executeSelectionSetS]
+  | succ n ih =>
+    intro parent path sels
+    simp only [executeFields, executeSelectionSetS, bind, Except.bind]
+    have h := hc parent sels
+    cases h1 : collectFields s doc vars cf parent sels [] with
+    | error e =>
+      cases h2 : collectFieldsS s doc vars cf parent sels [] with
+      | error e2 => simp [h1, h2, Except.map] at h; simp [h]
+      | ok p2 => simp [h1, h2, Except.map] at h
+    | ok p1 =>
+      cases h2 : collectFieldsS s doc vars cf parent sels [] with
+      | error e2 => simp [h1, h2, Except.map] at h
+      | ok p2 =>
+        simp [h1, h2, Except.map] at h
+        simp only [h, executeGroups_agree' s w _ _ (fun rt p sels => ih rt p sels) parent path p2.1]
+
 /-- Full statement (all documents): data equal, errors equal up to duplicate locations inside one error. -/
 def ExecRefinesSpec (s : SchemaD) (doc : Doc) (vars : Vars) (w : World) (cf fuel : Nat) (root : String) (sels : List Sel) : Prop :=
   ∀ d es, executeFields s doc vars w cf fuel root [] sels = .ok (d, es) →
